@@ -21,7 +21,9 @@ type sysOp struct {
 	Name  string `json:"name"`            // file name relative to the state directory
 	Name2 string `json:"name2,omitempty"` // rename target
 	Data  []byte `json:"data,omitempty"`  // bytes written
+	Full  []byte `json:"-"`               // W: the whole buffer the call was given (≠ Data on a short write)
 	Text  string `json:"text"`            // the system call as traced (shortened), for replays
+	Seq   int    `json:"-"`               // Failed: number of ops recorded before it
 }
 
 func (o sysOp) canon() string {
@@ -97,6 +99,7 @@ func fdArg(a string) (fd string, path string) {
 type traceResult struct {
 	Ops        []sysOp
 	Unmodelled []string // calls touching the state directory that the model has no op for
+	Failed     []sysOp  // failed write(2) calls on state-directory files (Full = the buffer), in order
 	Raw        int      // traced lines
 }
 
@@ -207,13 +210,16 @@ func parseTrace(out []byte, dir string) (*traceResult, error) {
 				continue
 			}
 			if failed {
+				if data, trunc, ok := strArg(args[1]); ok && !trunc {
+					res.Failed = append(res.Failed, sysOp{Kind: "W", Name: n, Full: data, Text: short(rest), Seq: len(res.Ops)})
+				}
 				continue
 			}
 			data, trunc, ok := strArg(args[1])
 			if !ok || trunc || retN > len(data) {
 				return nil, fmt.Errorf("cannot decode write data: %s", short(rest))
 			}
-			add(sysOp{Kind: "W", Name: n, Data: data[:retN]})
+			add(sysOp{Kind: "W", Name: n, Data: data[:retN], Full: data})
 		case "close":
 			fd, p := fdArg(args[0])
 			if n, in := rel(p); in && !failed {
@@ -315,6 +321,8 @@ type request struct {
 	Args map[string]string `json:"args,omitempty"`
 	Seed uint64            `json:"seed,omitempty"`
 	Ops  []ticketOp        `json:"ops,omitempty"`
+	// FsizeLimit: RLIMIT_FSIZE (bytes) the helper sets on itself, SIGXFSZ ignored
+	FsizeLimit *uint64 `json:"fsize_limit,omitempty"`
 }
 
 type reply struct {
